@@ -69,11 +69,12 @@ def main(argv):
         kind = name.split("_")[0]
         alarms = sorted({(a.site[0].split("/")[-1], a.site[1], a.what) for a in A.alarms.values()})
         galarms = sorted({(a.site[0].split("/")[-1], a.site[1], a.what, a.target) for a in A.globals_mut.values()})
-        if not getattr(A, "validated", True) or not getattr(A, "converged", True):
-            # an analysis that gave up pruning / did not converge must not claim a proof
-            verdict_alarm = True
-        else:
-            verdict_alarm = bool(alarms) if kind != "galarm" else bool(galarms)
+        unsupported = sorted({(st[0].split("/")[-1], st[1], "unsupported: " + why) for (st, why) in A.unsupported})
+        if not A.converged:
+            unsupported.append(("<analysis>", 0, "no fixpoint"))
+        # a run that met an unmodelled construct or did not converge claims nothing: it counts as an alarm
+        verdict_alarm = bool(unsupported) or (bool(alarms) if kind != "galarm" else bool(galarms))
+        alarms = alarms + unsupported
         if kind in ("alarm", "galarm") and not verdict_alarm:
             print(f"UNSOUND  {full}: mutation of the source not reported")
             bad += 1
